@@ -135,6 +135,7 @@ impl Check for C18 {
                 keepalive_interval_ms: c.server_keepalive_ms.unwrap_or(5000).max(1),
                 max_send_rate: c.server_rate.max(1),
                 max_receive_rate: c.server_rate.max(1),
+                ..EpCfg::default()
             },
         };
         let mut w = World::new(c.seed, &cfg);
